@@ -46,6 +46,11 @@ impl World {
     pub fn include_directives(&self) -> usize {
         self.files.values().map(|t| t.lines().filter(|l| parse_include(l).is_some()).count()).sum()
     }
+    /// Upper bound on the include directives the parser can meet in one pass over every file:
+    /// occurrences of the directive name, wherever they stand (faulted text can put many on a line).
+    pub fn include_occurrences(&self) -> usize {
+        self.files.values().map(|t| t.matches(".include").count()).sum()
+    }
 }
 
 /// Directory part of a path ("" for top level, otherwise ends without '/').
